@@ -226,12 +226,13 @@ impl<CS: BbsCiphersuite> Signature<BBSplus<CS>> {
             ));
         }
 
-        let generators = Generators::create::<CS>(
-            n.checked_add(1).ok_or(Error::UpdateSignatureError(
-                "number of messages out of range".to_owned(),
-            ))?,
-            Some(CS::API_ID),
-        );
+        // n + 1 generators belong to the signature, but only Q_1 and H_1..H_(update_index + 1)
+        // are needed here (the list is prefix-stable): the work does not depend on the
+        // caller-supplied n
+        n.checked_add(1).ok_or(Error::UpdateSignatureError(
+            "number of messages out of range".to_owned(),
+        ))?;
+        let generators = Generators::create::<CS>(update_index + 2, Some(CS::API_ID));
 
         let old_message_scalar =
             BBSplusMessage::map_message_to_scalar_as_hash::<CS>(old_message, CS::API_ID)?;
